@@ -19,6 +19,7 @@ import (
 	"iter"
 	"log/slog"
 	"math/big"
+	"os"
 	"sort"
 	"strconv"
 	"strings"
@@ -40,6 +41,7 @@ import (
 	"reduction.dev/reduction/connectors/kinesis"
 	"reduction.dev/reduction/connectors/kinesis/kinesisfake"
 	"reduction.dev/reduction/connectors/kinesis/kinesispb"
+	"reduction.dev/reduction/dkv"
 	"reduction.dev/reduction/proto"
 	"reduction.dev/reduction/proto/jobpb"
 	"reduction.dev/reduction/proto/snapshotpb"
@@ -48,6 +50,7 @@ import (
 	"reduction.dev/reduction/storage/snapshots"
 	"reduction.dev/reduction/util/verifhook"
 	"reduction.dev/reduction/workers/sourcerunner"
+	"verifharness/clusterlib"
 	"verifharness/hx"
 )
 
@@ -67,6 +70,8 @@ func (eng) Rule(mode string) string {
 		return "random op sequences (load/add/track/remove/available/assigned) on the real SplitTracker over 8 shard ids with parent links. Non-trivial: some AvailableSplits call withheld a child."
 	case "kinesis":
 		return "split/merge lineage histories on kinesisfake with discovery ticks, finished shards (single and pairs), checkpoints and restores at random points, 1..4 runners. Non-trivial: at least one reshard and one restore or one withheld child."
+	case "jobrestore":
+		return "the real jobs.Job with real operators and source runners (harness/clusterlib): records, checkpoint N published, more records, checkpoint N+1 fully acknowledged with its file write held, a worker crash and re-deployment; the held write finishes before / during (inside Assembly.Deploy) / after the re-deployment. Non-trivial: the write finished during the deployment, after the job had read checkpoint N."
 	case "kinread":
 		return "the real kinesis SourceReader against kinesisfake: 1..3 shards with records, GetRecords limit 1..3 (one shard polled per read, round robin), random put / read / Checkpoint / recovery-from-last-checkpoint sequences incl. chains of recoveries with a checkpoint before every shard was polled again, shards closed by a split. Non-trivial: a checkpoint taken after a recovery before every held shard was polled again."
 	case "httpread":
@@ -1604,6 +1609,303 @@ func execStatic(c *hx.Case) (*hx.Result, error) {
 }
 
 // =====================================================================================================
+// mode jobrestore: the real jobs.Job (through clusterlib) re-deploying after a worker failure while a fully
+// acknowledged checkpoint is still being written: which checkpoint do the operators and the source splitter get?
+// =====================================================================================================
+
+type jop struct {
+	Kind    string `json:"kind"`    // only "recover": feed, checkpoint N, feed, checkpoint N+1 (publication held), crash, redeploy
+	Release string `json:"release"` // when the held write of N+1 finishes: before | deploy | after (the re-deployment)
+	Feed1   int    `json:"feed1"`
+	Feed2   int    `json:"feed2"`
+	Victim  int    `json:"victim"`
+}
+
+var (
+	jobRoot string
+	jobSeq  int
+)
+
+func genJobRestore(r *hx.Rand, tier string) []*hx.Case {
+	var cs []*hx.Case
+	n := 10
+	if tier == "thorough" {
+		n = 40
+	}
+	for i := 0; i < n; i++ {
+		rel := []string{"deploy", "deploy", "after", "before"}[i%4]
+		cs = append(cs, &hx.Case{Name: "jobrestore", Params: map[string]any{"mode": "jobrestore", "workers": r.Range(2, 3), "splits": r.Range(1, 3), "read_batch": r.Range(1, 3)},
+			Ops: []json.RawMessage{hx.Op(jop{Kind: "recover", Release: rel, Feed1: r.Range(2, 6), Feed2: r.Range(2, 6), Victim: r.Intn(3)})}})
+	}
+	return cs
+}
+
+func execJobRestore(c *hx.Case) (*hx.Result, error) {
+	if len(c.Ops) == 0 {
+		return nil, fmt.Errorf("empty case")
+	}
+	var op jop
+	if err := json.Unmarshal(c.Ops[0], &op); err != nil {
+		return nil, err
+	}
+	w, nsplits := pint(c, "workers", 2), pint(c, "splits", 2)
+	// A halted operator may still be flushing a memtable (a write into a removed directory panics in the DKV): the
+	// directories of this process are removed when it ends, stale ones of earlier processes after ten minutes.
+	if jobRoot == "" {
+		if olds, err := os.ReadDir("/var/tmp"); err == nil {
+			for _, e := range olds {
+				if info, err := e.Info(); err == nil && strings.HasPrefix(e.Name(), "c16-job-") && time.Since(info.ModTime()) > 10*time.Minute {
+					os.RemoveAll("/var/tmp/" + e.Name())
+				}
+			}
+		}
+		root, err := os.MkdirTemp("/var/tmp", "c16-job-")
+		if err != nil {
+			return nil, err
+		}
+		jobRoot = root
+	}
+	jobSeq++
+	dir := fmt.Sprintf("%s/%d", jobRoot, jobSeq)
+	if err := os.MkdirAll(dir, 0o755); err != nil {
+		return nil, err
+	}
+	splits := make([][]clusterlib.Record, nsplits)
+	id := uint32(0)
+	for s := range splits {
+		for k := 0; k < 16; k++ {
+			id++
+			splits[s] = append(splits[s], clusterlib.Record{ID: id, Key: []byte(fmt.Sprintf("k%d", id%5))})
+		}
+	}
+	sc := clusterlib.NewScript(splits)
+	var hook func(first bool)
+	var hookMu sync.Mutex
+	cl, err := clusterlib.New(clusterlib.Options{Dir: dir, Workers: w, KeyGroups: 8, OpBatch: 1, SrBatch: 1, ReadBatch: pint(c, "read_batch", 2), Script: sc,
+		// state storage is not this property's subject: memtables large enough that nothing is flushed or compacted in the background
+		DKV: &dkv.VerifDBTuning{MemTableSize: 64 << 20, TargetFileSize: 64 << 20, MaxWALSize: 64 << 20, L0TableNumCompactionTrigger: 1000,
+			MaxSizeAmplificationPercent: 1000, SmallestLevelSize: 64 << 20, LevelSizeMultiplier: 10},
+		Hooks: clusterlib.Hooks{OnDeploy: func(gen int64, opID string, first bool) {
+			hookMu.Lock()
+			h := hook
+			hookMu.Unlock()
+			if h != nil {
+				h(first)
+			}
+		}}})
+	if err != nil {
+		return nil, err
+	}
+	defer func() {
+		cl.AwaitFlushed(5 * time.Second)
+		cl.Close()
+	}()
+	const tmo = 15 * time.Second
+	all := cl.StartWorkers(w)
+	if !cl.AwaitRunning(0, tmo) {
+		return nil, fmt.Errorf("cluster did not start: %v", cl.Log().Errors)
+	}
+	emitted := func(l *clusterlib.Log) int {
+		n := 0
+		for _, e := range l.Emissions {
+			n += len(e.IDs)
+		}
+		return n
+	}
+	feed := func(k int) error {
+		want := 0
+		for s := 0; s < nsplits; s++ {
+			sc.Allow(s, sc.Allowed(s)+k)
+			want += sc.Allowed(s)
+		}
+		sc.Poke()
+		if !cl.Await(func(l *clusterlib.Log) bool { return emitted(l) >= want }, tmo) {
+			return fmt.Errorf("records were not read")
+		}
+		return nil
+	}
+	published := func(id uint64, done bool) func(l *clusterlib.Log) bool {
+		return func(l *clusterlib.Log) bool {
+			for _, p := range l.Published {
+				if p.ID == id && p.Done == done {
+					return true
+				}
+			}
+			return false
+		}
+	}
+	checkpoint := func() (uint64, error) {
+		before := len(cl.Log().Started)
+		if err := cl.TriggerCheckpoint(); err != nil {
+			return 0, err
+		}
+		l := cl.Log()
+		if len(l.Started) == before {
+			return 0, fmt.Errorf("checkpoint refused")
+		}
+		return l.Started[len(l.Started)-1], nil
+	}
+	if err := feed(op.Feed1); err != nil {
+		return nil, err
+	}
+	n1, err := checkpoint()
+	if err != nil {
+		return nil, err
+	}
+	if !cl.AwaitPublished(n1, tmo) || !cl.AwaitCurrent(n1, tmo) {
+		return nil, fmt.Errorf("checkpoint %d not published", n1)
+	}
+	if err := feed(op.Feed2); err != nil {
+		return nil, err
+	}
+	cl.HoldPublication()
+	n2, err := checkpoint()
+	if err != nil {
+		cl.ReleasePublication()
+		return nil, err
+	}
+	if !cl.Await(published(n2, false), tmo) { // every acknowledgement is in; the file write is held
+		cl.ReleasePublication()
+		return nil, fmt.Errorf("checkpoint %d not complete", n2)
+	}
+	finish := func() {
+		cl.ReleasePublication()
+		cl.AwaitNoFlush(published(n2, true), tmo)
+		cl.AwaitCurrent(n2, tmo)
+	}
+	switch op.Release {
+	case "before":
+		finish()
+	case "deploy":
+		hookMu.Lock()
+		hook = func(first bool) {
+			if first {
+				finish() // the write finishes while the job is inside Assembly.Deploy
+			}
+		}
+		hookMu.Unlock()
+	}
+	genBefore := cl.Generation()
+	live := cl.LiveWorkers()
+	v := live[op.Victim%len(live)]
+	cl.Kill(v)
+	cl.AwaitStopped([]int{v}, tmo)
+	cl.Deregister(v)
+	gone := map[int]bool{v: true}
+	all = append(all, cl.StartWorkers(1)...)
+	// a surviving runner that was sending to the dead operator stops with an error (as the real process would): it
+	// is replaced too, like a supervisor restarting the process
+	ok := false
+	for try := 0; try < 6 && !ok; try++ {
+		if ok = cl.AwaitRunning(genBefore, 1500*time.Millisecond); ok {
+			break
+		}
+		liveNow := map[int]bool{}
+		for _, x := range cl.LiveWorkers() {
+			liveNow[x] = true
+		}
+		for _, x := range all {
+			if !liveNow[x] && !gone[x] {
+				gone[x] = true
+				cl.Deregister(x)
+				all = append(all, cl.StartWorkers(1)...)
+			}
+		}
+	}
+	hookMu.Lock()
+	hook = nil
+	hookMu.Unlock()
+	cl.ReleasePublication()
+	if !ok {
+		return nil, fmt.Errorf("cluster did not recover: %v", cl.Log().Errors)
+	}
+	l := cl.Log()
+	gen := cl.Generation()
+	var dstart uint64
+	for _, d := range l.DeployStarts {
+		if d.Gen == gen {
+			dstart = d.Seq
+		}
+	}
+	// the checkpoint that was current when the job chose what to deploy from
+	cur := uint64(0)
+	for _, p := range l.Published {
+		if p.Done && p.Seq < dstart && p.ID > cur {
+			cur = p.ID
+		}
+	}
+	var rs, prevRs *clusterlib.Restore
+	for i := range l.Restores {
+		if l.Restores[i].Gen == gen {
+			rs = &l.Restores[i]
+		} else {
+			prevRs = &l.Restores[i]
+		}
+	}
+	if rs == nil {
+		return nil, fmt.Errorf("no splitter start observed for generation %d", gen)
+	}
+	// the operators of the assembly that was started: the last w Deploy calls before the splitter start (a deployment
+	// attempt that failed half-way - another worker stopped meanwhile - is retried by the job and comes earlier)
+	var since []clusterlib.DeployedFrom
+	for _, d := range l.DeployedFrom {
+		if d.Seq < rs.Seq && (prevRs == nil || d.Seq > prevRs.Seq) {
+			since = append(since, d)
+		}
+	}
+	retried := len(since) > w
+	if len(since) > w {
+		since = since[len(since)-w:]
+	}
+	var opsFrom []string
+	for _, d := range since {
+		for _, x := range d.CheckpointIDs {
+			opsFrom = append(opsFrom, hx.CoqN(x))
+			if retried {
+				cur = x // which checkpoint was current when the retry chose is not observed
+			}
+		}
+		if len(d.CheckpointIDs) == 0 {
+			opsFrom = append(opsFrom, "0")
+		}
+	}
+	posOf := func(id uint64) []string {
+		var out []string
+		for _, p := range l.Published {
+			if p.ID == id {
+				out = nil
+				for _, x := range p.Positions {
+					if x < 0 {
+						x = 0
+					}
+					out = append(out, hx.CoqN(uint64(x)))
+				}
+			}
+		}
+		return out
+	}
+	var handed []string
+	for _, x := range rs.Positions {
+		handed = append(handed, hx.CoqN(uint64(x)))
+	}
+	sfrom := uint64(0)
+	if rs.HasCheckpoint {
+		sfrom = rs.CheckpointID
+	}
+	term := fmt.Sprintf("(CJobRestore %d %d %s %d %s %s %s)", cur, n2, hx.CoqList(opsFrom, "N"), sfrom, hx.CoqList(handed, "N"),
+		hx.CoqList(posOf(n1), "N"), hx.CoqList(posOf(n2), "N"))
+	overlap := op.Release == "deploy" && cur == n1
+	tags := []string{"release=" + op.Release}
+	if retried {
+		tags = append(tags, "deployment_retried")
+	}
+	if overlap {
+		tags = append(tags, "publication_finished_during_deploy")
+	}
+	return &hx.Result{Term: term, Nontrivial: overlap, Tags: tags, Observed: map[string]any{"current_at_read": cur, "n1": n1, "n2": n2, "operators_from": opsFrom, "splitter_from": sfrom, "positions": handed}}, nil
+}
+
+// =====================================================================================================
 // mode kinread: the real kinesis SourceReader against kinesisfake
 // =====================================================================================================
 
@@ -1997,6 +2299,8 @@ func (eng) Generate(mode, tier string, r *hx.Rand) []*hx.Case {
 		}
 	case "static":
 		cs = genStatic(r, tier)
+	case "jobrestore":
+		cs = genJobRestore(r, tier)
 	case "kinread":
 		k := 150
 		if tier == "thorough" {
@@ -2031,6 +2335,8 @@ func (eng) Execute(mode string, c *hx.Case) (*hx.Result, error) {
 		return execHTTPRead(c)
 	case "kinread":
 		return execKinRead(c)
+	case "jobrestore":
+		return execJobRestore(c)
 	}
 	return nil, fmt.Errorf("unknown mode %q", mode)
 }
@@ -2038,4 +2344,7 @@ func (eng) Execute(mode string, c *hx.Case) (*hx.Result, error) {
 func main() {
 	slog.SetDefault(slog.New(slog.NewTextHandler(io.Discard, nil)))
 	hx.Main(eng{})
+	if jobRoot != "" {
+		os.RemoveAll(jobRoot)
+	}
 }
